@@ -27,29 +27,30 @@ TUS = ["src/bls12_381/fq.cpp", "src/bls12_381/fr.cpp", "src/bls12_381/fq2.cpp", 
 
 # which functions (regex on the readable key) each property's HAND-WRITTEN models mirror
 GROUPS = {
-    "C01": [r"bls12_381::miller_loop\(", r"bls12_381::exp_by_x_restrict", r"bls12_381::pairing[ <(]", r"G2Prepared::prepare"],
-    "C02": [r"core::BigInt<", r"core::FpBase<", r"core::Fp<", r"core::fp_inverse", r"core::exponentiate", r"bls12_381::Fq::", r"bls12_381::Fr::"],
-    "C06": [r"WnafScalar<", r"WnafTable<", r"wnaf_table_multiply", r"wnaf_multiply", r"multiply_doubleadd", r"multiply_wnaf",
+    "C01": [r"^(var|record|typedef) bls12_381::(bls_x|generator_pairing|G2Prepared|AffinePair|PreparedPair|MillerTriple|num_coeffs)", r"bls12_381::miller_loop\(", r"bls12_381::exp_by_x_restrict", r"bls12_381::pairing[ <(]", r"G2Prepared::prepare"],
+    "C02": [r"^(var|record|typedef) core::", r"^(var|record|typedef) bls12_381::(Fq|Fr)\b", r"core::BigInt<", r"core::FpBase<", r"core::Fp<", r"core::fp_inverse", r"core::exponentiate", r"bls12_381::Fq::", r"bls12_381::Fr::"],
+    "C06": [r"^(var|record|typedef) bls12_381::(Wnaf|PowersOfX|g1_|g2_|fr_p_value|bls_x|G1\b|G2\b)", r"WnafScalar<", r"WnafTable<", r"wnaf_table_multiply", r"wnaf_multiply", r"multiply_doubleadd", r"multiply_wnaf",
             r"curve_fast_multiply|floordiv_by_fr_p_value|decompose_lambda|G1::endomorphism|G1::multiply|G2::frobenius_map|G2::multiply|fq2_multiply_by_u|fq2_multiply_frobenius",
             r"div_exp_coeff", r"PowersOfX::decompose", r"BigInt<.*divide"],
-    "C07": [r"Fq12::exponentiate_gt", r"Fq12::random_gt", r"PowersOfX::", r"div_exp_coeff", r"exponentiate_restrict_cyclotomic"],
-    "C08": [r"bls12_381::miller_loop\(", r"G2Prepared::prepare", r"bls12_381::pairing", r"pairing_product"],
-    "C09": [r"Encoding<", r"get_point_from_x", r"is_on_curve", r"is_in_correct_subgroup", r"Fq2::square_root", r"Fq2::compare", r"Fq2::legendre",
+    "C07": [r"^(var|record|typedef) bls12_381::(PowersOfX|bls_x|Fq12\b)", r"Fq12::exponentiate_gt", r"Fq12::random_gt", r"PowersOfX::", r"div_exp_coeff", r"exponentiate_restrict_cyclotomic"],
+    "C08": [r"^(var|record|typedef) bls12_381::(G2Prepared|AffinePair|PreparedPair|MillerTriple|num_coeffs)", r"bls12_381::miller_loop\(", r"G2Prepared::prepare", r"bls12_381::pairing", r"pairing_product"],
+    "C09": [r"^(var|record|typedef) bls12_381::(Encoding|Affine|Projective|G1|G2|Fq2\b)", r"Encoding<", r"get_point_from_x", r"is_on_curve", r"is_in_correct_subgroup", r"Fq2::square_root", r"Fq2::compare", r"Fq2::legendre",
             r"Fq::read_big_endian", r"Fq::write_big_endian", r"Fq2::read_big_endian", r"Fq2::write_big_endian", r"Fq::compare"],
-    "C10": [r"try_and_increment", r"from_hash", r"sample_random_generator", r"random_generator", r"hash_reduce", r"Fq::random", r"Fr::random", r"Fq2::random",
+    "C10": [r"^(var|record|typedef) bls12_381::(Affine|Projective|G1|G2|PowersOfX|Fq\b|Fr\b|Fq2\b)", r"try_and_increment", r"from_hash", r"sample_random_generator", r"random_generator", r"hash_reduce", r"Fq::random", r"Fr::random", r"Fq2::random",
             r"PowersOfX::random", r"compute_id_from_hash", r"zp_from_hash"],
-    "C11": [r"wkdibe::(setup|keygen|qualifykey|nondelegable_keygen|nondelegable_qualifykey|adjust_nondelegable|resamplekey|encrypt|decrypt|decrypt_master|precompute|id_difference|encrypt_precomputed)"],
-    "C12": [r"wkdibe::(precompute|encrypt_precomputed|encrypt|decrypt|qualifykey|nondelegable_qualifykey|adjust_nondelegable)"],
-    "C13": [r"wkdibe::(sign|sign_precomputed|verify|verify_precomputed|precompute)"],
-    "C14": [r"wkdibe::(adjust_precomputed|adjust_nondelegable|precompute|id_difference|resamplekey|encrypt_precomputed|sign_precomputed|verify_precomputed)"],
-    "C15": [r"wkdibe::.*[Mm]arshal", r"wkdibe::.*(unmarshalledLength|marshalledLength|setLength)", r"lqibe::.*[Mm]arshal", r"uint32_swap_endianness", r"Fq12::read_big_endian", r"Fq12::write_big_endian"],
-    "C16": [r"lqibe::(setup|keygen|encrypt|decrypt|compute_id_from_hash)"],
+    "C11": [r"^(var|record|typedef) wkdibe::", r"wkdibe::(setup|keygen|qualifykey|nondelegable_keygen|nondelegable_qualifykey|adjust_nondelegable|resamplekey|encrypt|decrypt|decrypt_master|precompute|id_difference|encrypt_precomputed)"],
+    "C12": [r"^(var|record|typedef) wkdibe::", r"wkdibe::(precompute|encrypt_precomputed|encrypt|decrypt|qualifykey|nondelegable_qualifykey|adjust_nondelegable)"],
+    "C13": [r"^(var|record|typedef) wkdibe::", r"wkdibe::(sign|sign_precomputed|verify|verify_precomputed|precompute)"],
+    "C14": [r"^(var|record|typedef) wkdibe::", r"wkdibe::(adjust_precomputed|adjust_nondelegable|precompute|id_difference|resamplekey|encrypt_precomputed|sign_precomputed|verify_precomputed)"],
+    "C15": [r"^(var|record|typedef) (wkdibe|lqibe)::", r"wkdibe::.*[Mm]arshal", r"wkdibe::.*(unmarshalledLength|marshalledLength|setLength)", r"lqibe::.*[Mm]arshal", r"uint32_swap_endianness", r"Fq12::read_big_endian", r"Fq12::write_big_endian"],
+    "C16": [r"^(var|record|typedef) lqibe::", r"lqibe::(setup|keygen|encrypt|decrypt|compute_id_from_hash)"],
     "C19": [r"^embedded_pairing_(bls12_381|wkdibe|lqibe|core)_"],
-    "C17": [r"wkdibe::.*[Mm]arshal", r"wkdibe::.*(unmarshalledLength|marshalledLength|setLength)", r"lqibe::.*[Mm]arshal"],
+    "C17": [r"^(var|record|typedef) (wkdibe|lqibe)::", r"wkdibe::.*[Mm]arshal", r"wkdibe::.*(unmarshalledLength|marshalledLength|setLength)", r"lqibe::.*[Mm]arshal"],
 }
 
 KEEP = ("kind", "name", "opcode", "value", "castKind", "isArrow", "isPostfix", "valueCategory", "storageClass", "constexpr", "inline",
-        "explicitlyDefaulted", "explicitlyDeleted", "tagUsed", "init", "isBitfield", "mutable", "nonOdrUseReason", "hasElse", "isConstexpr")
+        "explicitlyDefaulted", "explicitlyDeleted", "tagUsed", "init", "isBitfield", "mutable", "nonOdrUseReason", "hasElse", "isConstexpr", "depth", "index", "isParameterPack")
+# NOTE "defaultArg" of template parameters is a nested node and is kept through "inner"/"defaultArg" below
 
 def canon(n):
     if isinstance(n, list): return [canon(x) for x in n]
@@ -64,6 +65,8 @@ def canon(n):
         out["ref"] = {"kind": rd.get("kind"), "name": rd.get("name"), "type": (rd.get("type") or {}).get("qualType")}
     if "inner" in n:
         out["inner"] = [c for c in (canon(x) for x in n["inner"]) if c is not None]
+    if isinstance(n.get("defaultArg"), dict):
+        out["defaultArg"] = canon(n["defaultArg"])
     return out
 
 def has_body(n):
@@ -82,15 +85,39 @@ def collect(node, ctx, found):
     if not isinstance(node, dict): return
     k = node.get("kind")
     if k in ("NamespaceDecl", "CXXRecordDecl", "ClassTemplateDecl", "ClassTemplateSpecializationDecl", "ClassTemplatePartialSpecializationDecl", "LinkageSpecDecl"):
-        sub = ctx + ([node["name"]] if node.get("name") and k != "LinkageSpecDecl" else [])
+        targs = ""
+        if k in ("ClassTemplateSpecializationDecl", "ClassTemplatePartialSpecializationDecl"):
+            def targ(a):
+                if isinstance(a.get("type"), dict): return a["type"].get("qualType", "?")
+                if "value" in a: return str(a["value"])
+                if isinstance(a.get("decl"), dict): return a["decl"].get("name", "?")
+                inner = [x for x in a.get("inner", []) if isinstance(x, dict)]
+                return json.dumps(canon(inner), sort_keys=True)[:80] if inner else "?"
+            targs = "<" + ", ".join(targ(c) for c in node.get("inner", []) if isinstance(c, dict) and c.get("kind") == "TemplateArgument") + ">"
+        sub = ctx + ([node["name"] + targs] if node.get("name") and k != "LinkageSpecDecl" else [])
+        if k in ("CXXRecordDecl", "ClassTemplateSpecializationDecl", "ClassTemplatePartialSpecializationDecl") and node.get("completeDefinition") and node.get("name"):
+            # the data layout of a record: bases and fields (names, types, bit-fields, default initialisers), in order
+            fields = [canon(c) for c in node.get("inner", []) if isinstance(c, dict) and c.get("kind") == "FieldDecl"]
+            bases = [(b.get("type") or {}).get("qualType") for b in node.get("bases", [])]
+            if fields or bases:
+                found.append(("record " + "::".join(sub), None, {"tag": node.get("tagUsed"), "bases": bases, "fields": fields}))
         for c in node.get("inner", []): collect(c, sub, found)
+        return
+    if k in ("CXXRecordDecl", "ClassTemplateSpecializationDecl") and False: pass
+    if k == "VarDecl" and "init" in node and ctx:
+        found.append(("var " + "::".join(ctx + [node.get("name", "?")]) + " " + (node.get("type") or {}).get("qualType", ""), None, canon(node)))
+        return
+    if k in ("TypedefDecl", "TypeAliasDecl") and ctx:
+        t = node.get("type") or {}
+        found.append(("typedef " + "::".join(ctx + [node.get("name", "?")]), None, {"type": t.get("qualType"), "desugared": t.get("desugaredQualType")}))
         return
     if k == "FunctionTemplateDecl":
         templ = [c for c in node.get("inner", []) if isinstance(c, dict) and c.get("kind") in ("FunctionDecl", "CXXMethodDecl", "CXXConstructorDecl")]
         if any(has_body(t) for t in templ):
             # the template pattern only (instantiations depend on the translation unit)
             pat = templ[0]
-            found.append(("::".join(ctx + [node.get("name", "?")]) + " [template] " + (pat.get("type") or {}).get("qualType", ""), None, canon(pat)))
+            tparams = [canon(c) for c in node.get("inner", []) if isinstance(c, dict) and c.get("kind") in ("TemplateTypeParmDecl", "NonTypeTemplateParmDecl", "TemplateTemplateParmDecl")]
+            found.append(("::".join(ctx + [node.get("name", "?")]) + " [template] " + (pat.get("type") or {}).get("qualType", ""), None, {"params": tparams, "pattern": canon(pat)}))
         return
     if k in ("FunctionDecl", "CXXMethodDecl", "CXXConstructorDecl", "CXXDestructorDecl", "CXXConversionDecl"):
         if has_body(node):
@@ -128,7 +155,7 @@ def main():
         dm = dict(zip(mangled, demangle(mangled))) if mangled else {}
         for (key, m, c) in found:
             name = dm.get(m, key) if m else key
-            if name.startswith("embedded_pairing::"): name = name[len("embedded_pairing::"):]
+            name = re.sub(r"^((?:var|record|typedef) )?embedded_pairing::", r"\1", name)
             h = hashlib.sha256(json.dumps(c, sort_keys=True, separators=(",", ":")).encode()).hexdigest()[:24]
             if name not in table: table[name] = h          # first translation unit (fixed order) wins
             elif table[name] != h and "[template]" not in name:
